@@ -1,4 +1,5 @@
 mod chain;
+mod client;
 mod conc;
 mod crash;
 mod config;
@@ -71,6 +72,10 @@ fn main() {
         "tower" => {
             towerhist::run(seed, thorough, &mut rep);
             rep.finish("random tower histories (registrations, valid/garbled/multi-slot submissions and updates by several users on shared locators, signature mutations, blocks with disputes/penalties, same-block dispute+penalty, reorgs, walks past expiry and past 100 confirmations, scripted node verdicts); non-trivial = at least one accepted appointment and one non-empty block; distinct = distinct outcome shapes", false);
+        }
+        "client" => {
+            client::run(seed, thorough, &mut rep);
+            rep.finish("operation sequences on the real WTClient + DBM over 2-3 towers sharing 1-3 locators: register/renew (extending and not), receipt, pending, invalid, pending->accepted, pending->invalid, misbehaviour, abandon, status changes, stray releases, duplicates, reloads; after every operation the summaries, the raw rows and what a second DBM would load are compared; non-trivial = some locator referenced by two towers at once; distinct = distinct (operation, outcome) sequences", false);
         }
         other => {
             eprintln!("unknown component {other}");
